@@ -284,7 +284,7 @@ pub fn run(ctx: &Ctx) -> i32 {
         out(&format!("INCONCLUSIVE property=C12 oracle self-test failed: max error {:e} over {} identities", st_err, st_n));
         return inconclusive_exit();
     }
-    let n_items = ctx.n(600, 60_000);
+    let n_items = ctx.n(3000, 60_000);
     let acc = par_items(ctx, "C12", n_items, |item, rng, acc| match item % 6 {
         0 => grid_case(item, rng, acc),
         1 => sample_case(item, rng, acc),
